@@ -767,3 +767,21 @@ Proof.
   intros a b H i Hi. unfold disjointb in H. rewrite forallb_forall in H. specialize (H i Hi).
   apply memb_false. destruct (memb i b); [discriminate | reflexivity].
 Qed.
+
+(* ---- irreducible chains meet the reachability hypothesis for every non-empty set *)
+Lemma reaches_mono : forall n T A A' i, (forall a, In a A -> In a A') ->
+  reaches n T A i -> reaches n T A' i.
+Proof.
+  intros n T A A' i Hsub Hr. induction Hr as [k Hk | k j Hj Hpos Hr IH].
+  - apply reach_here. apply Hsub. exact Hk.
+  - apply (reach_step n T A' k j Hj Hpos IH).
+Qed.
+
+Lemma irreducible_reaches : forall n T,
+  (forall i j, (i < n)%nat -> (j < n)%nat -> reaches n T [j] i) ->
+  forall A a, In a A -> (a < n)%nat -> forall i, (i < n)%nat -> reaches n T A i.
+Proof.
+  intros n T Hirr A a Ha Han i Hi. apply (reaches_mono n T [a] A i).
+  - intros x [<-|[]]. exact Ha.
+  - apply Hirr; assumption.
+Qed.
